@@ -3,7 +3,7 @@
 #include <stdint.h>
 #define MON_MAXT 4
 #define MON_MAXP 4096
-#define MON_MAXS 256
+#define MON_MAXS 16384        /* open-addressing table of shared locations (power of two) */
 typedef struct {
     int nthreads; volatile int running; int finished[MON_MAXT], started[MON_MAXT];
     /* choice sequence: prefix to replay, then default choice 0 */
@@ -13,6 +13,7 @@ typedef struct {
     /* monitor */
     long accesses, foreign;
     int nshared; uintptr_t sh_addr[MON_MAXS]; unsigned sh_readers[MON_MAXS], sh_writers[MON_MAXS]; unsigned char sh_kind[MON_MAXS];
+    int sh_overflow;
     int conflict; uintptr_t conflict_addr; int conflict_kind, conflict_write, conflict_tid;
 } mon_state;
 extern mon_state mon;
@@ -22,4 +23,8 @@ void mon_end(void);
 void mon_thread_begin(int tid);
 void mon_thread_end(void);
 void mon_arena_fill(int tid, int byte);
+/* written set: shared 8-byte granules written by any thread in any execution since the last reset (persists across executions).  A read of a granule outside
+   the set is independent of every other operation and is therefore not a scheduling point (partial-order reduction); when the set grows, the harness is re-explored. */
+void mon_wset_reset(void);
+extern int mon_wset_grew; extern long mon_wset_size;
 #endif
